@@ -463,7 +463,7 @@ func (e *BinaryOpExpr) execBetweenBatch(chunk []KVPair, number bool, ctx *Execut
 	if !number && lexpr.ReturnType() != TSTR {
 		return nil, NewExecuteError(lexpr.GetPos(), "between operator lower boundary expression has wrong type, not string")
 	}
-	if !number && lexpr.ReturnType() != TSTR {
+	if !number && uexpr.ReturnType() != TSTR {
 		return nil, NewExecuteError(uexpr.GetPos(), "between operator upper boundary expression has wrong type, not string")
 	}
 	if number && lexpr.ReturnType() != TNUMBER {
